@@ -136,3 +136,10 @@ Example ex_mkdir_early_failures :
   vol_create_dir_root ex_U ex_O ex_vol_im ex_sfi [] ex_vol_now = (Err EInvalidFileNameLength, (ex_vol_im, ex_sfi)) /\
   vol_create_dir_root ex_U ex_O ex_file_im ex_sfi [70] ex_vol_now = (Err EInvalidInput, (ex_file_im, ex_sfi)).
 Proof. vm_compute. repeat split; reflexivity. Qed.
+
+(* the premises of VolDirTreeProofs.vol_remove_dir_empty_reclaims hold for the directory just created *)
+Example ex_rmdir_hyps :
+  exists ev, root_lookup ex_U ex_O ex_mk_im ex_dname = Ok ev /\ Lfn.ev_is_dir ev = true /\ is_special ev = false /\
+    root_entry_cluster ev = 2 /\ chain_from ex_g ex_mk_im 2 (Abs.chain_fuel ex_g) = Some [2] /\
+    dir_is_empty ex_O ex_g ex_mk_im [2] = Ok true.
+Proof. eexists. split; [vm_compute; reflexivity|]. vm_compute. repeat split; reflexivity. Qed.
